@@ -719,6 +719,9 @@ class Engine:
             if not seg:
                 continue
             job = dict(state, ops=seg, opi0=opi0)
+            # every simulated process has a working directory of its own choosing (a library path stored relative to
+            # the builder's directory means something else to the next process)
+            job["cwd"] = os.path.join(sandbox, ["cwd_a", "cwd_b", ""][(plan["vals_seed"] + len(segs) + opi0) % 3])
             jf = os.path.join(sandbox, "job.json")
             with fsim.REAL_OPEN(jf, "w") as f:
                 json.dump(job, f)
@@ -869,7 +872,7 @@ class Engine:
         i = plan["index"]
         name = MODELS[i % len(MODELS)]
         optset = (i // len(MODELS)) % len(cp.OPTION_SETS)
-        if plan.get("prior") is not None and optset in (8, 9) and plan["vals_seed"] % 5 < 3:
+        if optset in (8, 9) and (name == "Iter" or (plan.get("prior") is not None and plan["vals_seed"] % 5 < 3)):
             plan = dict(plan, prior=17 - optset)  # the sibling set, which differs in an option the API does not declare
         sandbox = util.new_sandbox()
         clock = core.SimClock()
